@@ -158,39 +158,43 @@ def r2_ctor(rep, ctx):
     oq = [c for c in own_nodes(init.node) if isinstance(c, ast.Call) and isinstance(c.func, ast.Name) and c.func.id == "ObtainQuantity"]
     if not oq:
         raise AnalysisError("shared constructor: ObtainQuantity call not found")
+    # (the forms may be served by one call each or by one call fed with alternatives: the calls are judged together)
     for c in oq:
         if len(c.args) < 2:
             raise AnalysisError("shared constructor: ObtainQuantity is not called with (unit, category)")
-        u, cat = res.term(c.args[0]), res.term(c.args[1])
-        # unit: the `unit` argument (category-first forms) or the `value` argument (value-first forms, after rotation)
-        up, cp = _param_set(u), _param_set(cat)
-        ok = up == {2, 3} and cp == {1, 3}
-        rep.check(ok, "C19.R2", "ctor:ObtainQuantity(unit, category)",
-                  "ObtainQuantity receives as unit the 3rd or (value-first forms) the 2nd argument and as category the 1st or (value-first forms) the 3rd",
-                  "ObtainQuantity receives unit from argument positions %s and category from %s (expected {2,3} and {1,3})" % (sorted(up), sorted(cp)), node=c, fn=init,
-                  facts={"unit": show(u, 200), "category": show(cat, 200)})
-        # category-only form: default unit of the same category info
-        du = [a for a in alternatives(u) if a[0] == "attr" and a[2] == "default_unit"]
-        ok_du = bool(du) and all(any(s[0] == "call" and s[1][0] == "attr" and s[1][2] == "GetCategoryInfo" for s in walk(a)) for a in du)
-        rep.check(ok_du, "C19.R2", "ctor:category-only:unit", "without a unit, the category's registered default unit is used",
-                  "the category-only form does not take the unit from GetCategoryInfo(category).default_unit", node=c, fn=init)
+    us = [res.term(c.args[0]) for c in oq]
+    cats = [res.term(c.args[1]) for c in oq]
+    up = set().union(*[_param_set(u) for u in us])
+    cp = set().union(*[_param_set(t_) for t_ in cats])
+    ok = up == {2, 3} and cp == {1, 3}
+    rep.check(ok, "C19.R2", "ctor:ObtainQuantity(unit, category)",
+              "ObtainQuantity receives as unit the 3rd or (value-first forms) the 2nd argument and as category the 1st or (value-first forms) the 3rd",
+              "ObtainQuantity receives unit from argument positions %s and category from %s (expected {2,3} and {1,3})" % (sorted(up), sorted(cp)), node=oq[0], fn=init,
+              facts={"unit": [show(u, 200) for u in us], "category": [show(t_, 200) for t_ in cats]})
+    # category-only form: default unit of the same category info
+    du = [a for u in us for a in alternatives(u) if a[0] == "attr" and a[2] == "default_unit"]
+    ok_du = bool(du) and all(any(s[0] == "call" and s[1][0] == "attr" and s[1][2] == "GetCategoryInfo" for s in walk(a)) for a in du)
+    rep.check(ok_du, "C19.R2", "ctor:category-only:unit", "without a unit, the category's registered default unit is used",
+              "the category-only form does not take the unit from GetCategoryInfo(category).default_unit", node=oq[0], fn=init)
     ic = [c for c in own_nodes(init.node) if isinstance(c, ast.Call) and isinstance(c.func, ast.Attribute) and c.func.attr == "_InternalCreateWithQuantity"]
     if not ic:
         raise AnalysisError("shared constructor: _InternalCreateWithQuantity call not found")
     for c in ic:
         if len(c.args) < 2:
             raise AnalysisError("shared constructor: _InternalCreateWithQuantity(quantity, value, ...) not recognised")
-        v = res.term(c.args[1])
-        vp = _param_set(v)
-        dv = [a for a in alternatives(v) if a[0] == "call" and a[1] in (("field", "_GetDefaultValue"), ("attr", ("self",), "_GetDefaultValue"))]
-        rep.check(vp == {1, 2}, "C19.R2", "ctor:value", "the stored value is the 2nd or (value-first forms) the 1st argument",
-                  "the stored value comes from argument positions %s (expected {1,2})" % sorted(vp), node=c, fn=init, facts={"value": show(v, 300)})
-        rep.check(bool(dv), "C19.R2", "ctor:category-only:value", "without a value, the category default value is used (via _GetDefaultValue)",
-                  "the value-less forms do not take the category default value", node=c, fn=init)
-        q = res.term(c.args[0])
-        qok = any(a[0] == "param" and a[1] == 1 for a in alternatives(q)) and any(a[0] == "call" and a[1] == ("name", "ObtainQuantity") for a in alternatives(q))
-        rep.check(qok, "C19.R2", "ctor:quantity", "the quantity is either the Quantity passed first or ObtainQuantity(unit, category)",
-                  "the quantity handed to the internal constructor is %s" % show(q, 200), node=c, fn=init)
+    vs = [res.term(c.args[1]) for c in ic]
+    vp = set().union(*[_param_set(v) for v in vs])
+    dv = [a for v in vs for a in alternatives(v) if a[0] == "call" and a[1] in (("field", "_GetDefaultValue"), ("attr", ("self",), "_GetDefaultValue"))]
+    rep.check(vp == {1, 2}, "C19.R2", "ctor:value", "the stored value is the 2nd or (value-first forms) the 1st argument",
+              "the stored value comes from argument positions %s (expected {1,2})" % sorted(vp), node=ic[0], fn=init, facts={"value": [show(v, 300) for v in vs]})
+    rep.check(bool(dv), "C19.R2", "ctor:category-only:value", "without a value, the category default value is used (via _GetDefaultValue)",
+              "the value-less forms do not take the category default value", node=ic[0], fn=init)
+    qs = [a for c in ic for a in alternatives(res.term(c.args[0]))]
+    is_first = lambda a: a[0] == "param" and a[1] == 1
+    is_obtained = lambda a: a[0] == "call" and a[1] == ("name", "ObtainQuantity")
+    qok = any(is_first(a) for a in qs) and any(is_obtained(a) for a in qs) and all(is_first(a) or is_obtained(a) for a in qs)
+    rep.check(qok, "C19.R2", "ctor:quantity", "the quantity is either the Quantity passed first or ObtainQuantity(unit, category)",
+              "the quantity handed to the internal constructor is %s" % [show(a, 120) for a in qs], node=ic[0], fn=init)
     # the value-first forms Scalar(value, unit, category): what reaches ObtainQuantity(unit, category) is the
     # 3rd-or-2nd argument as unit and the 1st-or-3rd as category (positions of the constructor's parameters)
     oq_calls = [c for c in own_nodes(init.node) if isinstance(c, ast.Call) and isinstance(c.func, ast.Name) and c.func.id == "ObtainQuantity" and len(c.args) == 2]
